@@ -91,7 +91,14 @@ def parse_unit(path):
             elif d == "props:":
                 meta["props"] = toks[1:]
             elif d == "include:":
-                meta["includes"] += toks[1:]
+                flush_text()
+                for inc in toks[1:]:
+                    sub = parse_unit(os.path.join(VERIF, inc))
+                    segs.append(("text", f"// ---- include {inc}"))
+                    segs.extend(sub["segments"])
+                    meta.setdefault("expects", []).extend(sub["meta"].get("expects", []))
+                    meta["includes"].append(inc)
+                    meta["includes"] += [i for i in sub["meta"]["includes"] if i not in meta["includes"]]
             elif d == "file:":
                 meta["file"] = toks[1]
             elif d == "panics:":
@@ -323,10 +330,6 @@ def assemble(unit, workdir, vacuity_twins=False):
     emit("#![allow(unused_imports, unused_variables, dead_code, unused_mut, unused_parens, unused_braces, non_snake_case, unreachable_code, unreachable_patterns, unused_assignments)]")
     emit("use vstd::prelude::*;")
     emit("verus! {")
-    for inc in meta["includes"]:
-        p = os.path.join(VERIF, inc)
-        emit(f"// ---- include {inc}")
-        emit(open(p).read())
     it_iter = iter(zip(extracts, items))
     for kind, seg in unit["segments"]:
         if kind == "text":
@@ -483,7 +486,7 @@ def locate(diag, A, fname):
     fn = None
     fn_info = None
     where_line = None
-    for s in allsp:
+    for s in sorted(allsp, key=lambda x: 0 if x.get("is_primary") else 1):
         if os.path.basename(s["file_name"]) != os.path.basename(fname):
             continue
         ln = s["line_start"]
